@@ -571,6 +571,14 @@ class TaxBenefitSystem:
                 "open_api_config",
             ):
                 new_dict[key] = value
+        # Entities resolve variables through their system: the clone needs its own.
+        new_dict["entities"] = [copy.copy(entity) for entity in self.entities]
+        new_dict["person_entity"] = next(
+            entity for entity in new_dict["entities"] if entity.is_person
+        )
+        new_dict["group_entities"] = [
+            entity for entity in new_dict["entities"] if not entity.is_person
+        ]
         for entity in new_dict["entities"]:
             entity.set_tax_benefit_system(new)
 
